@@ -95,22 +95,39 @@ func altOf(parts []string) string {
 	return out
 }
 
-// a statement without control flow of its own: its function literals are translated apart; one that is applied on the
-// spot and touches a mutex is not followed
+// what may wait for another party: a message sent to a peer, a call to a peer, a Wait
+var waitingCalls = map[string]int{"Send": 2, "SendReply": 2, "SendError": 2, "Call": 3, "Wait": 4}
+
+// a statement without control flow of its own: what in it may wait for another party (channel receives, messages and
+// calls to a peer), in source order; its function literals are translated apart; one that is applied on the spot and
+// touches a mutex is not followed
 func (t *lockTr) simple(n ast.Node) string {
-	res := ".skip"
+	if n == nil {
+		return ".skip"
+	}
+	var acts []string
+	unknown, panics := false, false
 	ast.Inspect(n, func(x ast.Node) bool {
 		switch v := x.(type) {
 		case *ast.CallExpr:
 			if fl, ok := v.Fun.(*ast.FuncLit); ok && touchesLocks(fl, true) {
-				res = ".unknown"
+				unknown = true
 			}
 			if id, ok := v.Fun.(*ast.Ident); ok && id.Name == "panic" {
-				res = ".ret"
+				panics = true
 			}
 			if _, _, ok := lockCall(v); ok {
 				// a lock operation inside an expression (never seen): not followed
-				res = ".unknown"
+				unknown = true
+			}
+			if sel, ok := v.Fun.(*ast.SelectorExpr); ok {
+				if k, ok := waitingCalls[sel.Sel.Name]; ok {
+					acts = append(acts, fmt.Sprintf("(.act %d)", k))
+				}
+			}
+		case *ast.UnaryExpr:
+			if v.Op == token.ARROW {
+				acts = append(acts, "(.act 1)")
 			}
 		case *ast.FuncLit:
 			t.lits = append(t.lits, v)
@@ -118,7 +135,13 @@ func (t *lockTr) simple(n ast.Node) string {
 		}
 		return true
 	})
-	return res
+	if unknown {
+		return ".unknown"
+	}
+	if panics {
+		acts = append(acts, ".ret")
+	}
+	return seqOf(acts)
 }
 
 func (t *lockTr) block(list []ast.Stmt) string {
@@ -153,10 +176,9 @@ func (t *lockTr) stmt(s ast.Stmt) string {
 		}
 		return t.simple(v)
 	case *ast.ReturnStmt:
-		if r := t.simple(v); r == ".unknown" {
-			return r
-		}
-		return ".ret"
+		return seqOf([]string{t.simple(v), ".ret"})
+	case *ast.SendStmt:
+		return seqOf([]string{t.simple(v.Value), t.simple(v.Chan), "(.act 0)"})
 	case *ast.BlockStmt:
 		return t.block(v.List)
 	case *ast.LabeledStmt:
@@ -171,12 +193,8 @@ func (t *lockTr) stmt(s ast.Stmt) string {
 		return seqOf(parts)
 	case *ast.ForStmt:
 		init := t.stmt(v.Init)
-		if v.Cond != nil {
-			if r := t.simple(v.Cond); r != ".skip" {
-				return r
-			}
-		}
-		body := seqOf([]string{t.block(v.Body.List), t.stmt(v.Post)})
+		cond := t.simple(v.Cond)
+		body := seqOf([]string{cond, t.block(v.Body.List), t.stmt(v.Post)})
 		return seqOf([]string{init, "(.loop " + body + ")"})
 	case *ast.RangeStmt:
 		return seqOf([]string{t.simple(v.X), "(.loop " + t.block(v.Body.List) + ")"})
@@ -218,24 +236,36 @@ func (t *lockTr) cases(list []ast.Stmt, mayTakeNone bool) string {
 			if cc.List == nil {
 				hasDefault = true
 			}
-			pre := ".skip"
+			var pre []string
 			for _, e := range cc.List {
-				if r := t.simple(e); r != ".skip" {
-					pre = r
-				}
+				pre = append(pre, t.simple(e))
 			}
-			alts = append(alts, seqOf([]string{pre, t.block(cc.Body)}))
+			alts = append(alts, seqOf(append(pre, t.block(cc.Body))))
 		case *ast.CommClause:
 			if cc.Comm == nil {
 				hasDefault = true
 			}
-			alts = append(alts, seqOf([]string{t.stmt(cc.Comm), t.block(cc.Body)}))
+			comm := t.stmt(cc.Comm)
+			if selectHasDefault(list) && comm != ".unknown" {
+				// a select with a default never waits: its sends and receives are attempts
+				comm = ".skip"
+			}
+			alts = append(alts, seqOf([]string{comm, t.block(cc.Body)}))
 		}
 	}
 	if (mayTakeNone && !hasDefault) || len(alts) == 0 {
 		alts = append(alts, ".skip")
 	}
 	return "(.catch " + altOf(alts) + ")"
+}
+
+func selectHasDefault(list []ast.Stmt) bool {
+	for _, c := range list {
+		if cc, ok := c.(*ast.CommClause); ok && cc.Comm == nil {
+			return true
+		}
+	}
+	return false
 }
 
 func extractLocks(out string) {
